@@ -14,6 +14,7 @@ import concurrent.futures
 import hashlib
 import os
 import random
+import time
 
 from .. import par, tlaparse, tlc
 from ..drivers import conn as cd
@@ -109,6 +110,7 @@ class Cover:
         self.by_kind = {}
         self.other_clauses = {}
         self.violations = {}
+        self.timing = {}
 
 
 def attribute(m, c, primary):
@@ -245,6 +247,7 @@ SMALL = dict(Obj=('a', 'b'), Edges='EdgesFlat', MaxCommit=1, MaxAct=3)
 
 def deviations(ctx, cov, kinds, blobs=False):
     """decide, constant by constant, whether the tree under test shows the deviation"""
+    t0 = time.time()
     dev = {d: False for d in cd.DEVIATIONS}
     dev['LeakUnstored'] = exhibit(ctx, cov, 'unstored-object-keeps-oid', cd.consts(Ops=('add', 'own', 'rm'), **SMALL), dev,
                                   'LeakUnstored', 'NoOwnedUncommitted', kinds)
@@ -260,6 +263,7 @@ def deviations(ctx, cov, kinds, blobs=False):
         dev['SpBlobByName'] = exhibit(ctx, cov, 'savepoint-blob-overwritten',
                                       cd.consts(Obj=('a', 'k'), Blobs=('k',), Edges='EdgesBlob', Ops=('add', 'sp'), MaxSp=2,
                                                 MaxCommit=1, MaxAct=5), dev, 'SpBlobByName', 'RollbackValue', bk)
+    cov.timing['counterexamples_s'] = round(time.time() - t0, 1)
     return dev
 
 
@@ -279,13 +283,16 @@ def _tlc_job(args):
 def _graph_process(conn_, ctx, name, c, dot, distinct, kinds, budget, cap, workers):
     """load, plan and replay one dumped graph (its own process: the replay workers are forked from it)"""
     try:
+        t0 = time.time()
         if c['Blobs']:
             kinds = tuple(k for k in kinds if k != 'mapping')
         g = cg.load(dot)
         os.remove(dot)
         if len(g.raw) != distinct:
             raise RuntimeError('dumped graph %s has %d states, TLC reported %d' % (name, len(g.raw), distinct))
+        t1 = time.time()
         tours, st = cg.plan(g, ctx.seed, cap=cap, budget=budget)
+        t2 = time.time()
         cg.CURRENT, cg.TOURS = g, tours
         order = list(range(len(tours)))
         random.Random(ctx.seed).shuffle(order)
@@ -310,7 +317,10 @@ def _graph_process(conn_, ctx, name, c, dot, distinct, kinds, budget, cap, worke
                 res['mismatch']['step'] += 1
         st['replayed_steps'] = sum(r2['steps'] for r2 in results)
         st['diverged_tours'] = sum(1 for r2 in results if r2['mismatch'])
+        t3 = time.time()
         annotate(results, c, steps_of, 'graph ' + name)
+        st['wall_s'] = {'load': round(t1 - t0, 1), 'plan': round(t2 - t1, 1), 'replay': round(t3 - t2, 1),
+                        'annotate': round(time.time() - t3, 1)}
         conn_.send(('ok', st, results))
     except BaseException:
         import traceback
@@ -324,6 +334,7 @@ def check_all(ctx, cov, items, dev, kinds, budget=None, cap=250, timeout=1500):
     code as it is (deviations as established) is dumped for every configuration, all TLC runs side by side; then
     every graph is loaded, planned and replayed in a process of its own."""
     import multiprocessing
+    t0 = time.time()
     as_code = [(name, with_dev(c, dev)) for name, c in items]
     ncpu = os.cpu_count() or 4
     w = max(2, ncpu // max(1, 2 * len(items)))
@@ -337,10 +348,16 @@ def check_all(ctx, cov, items, dev, kinds, budget=None, cap=250, timeout=1500):
             raise tlc.TLCError('%s %s: %s violated\n%s' % (kind, name, r.violation, r.output[-3000:]))
         if kind == 'graph':
             dots[name] = (dot, r.distinct)
+    cov.timing['tlc_design_and_dump_s'] = round(time.time() - t0, 1)
+    t0 = time.time()
     mp = multiprocessing.get_context('fork')
     procs = []
-    pw = max(2, ncpu // max(1, len(items)))
+    # replay workers per graph in proportion to the work (transitions; file storages with blobs cost about twice)
+    work = {name: max(1, r.states_generated) * (2 if c['Blobs'] else 1)
+            for (name, c), (kind, _n, r, _d) in zip(as_code, [d for d in done if d[0] == 'graph'])}
+    total = float(sum(work.values()))
     for name, c in as_code:
+        pw = max(2, int(round((ncpu + 2) * work[name] / total)))
         a, b = mp.Pipe(False)
         bud = budget.get(name) if isinstance(budget, dict) else budget
         p = mp.Process(target=_graph_process, args=(b, ctx, name, c, dots[name][0], dots[name][1], kinds, bud, cap, pw))
@@ -360,6 +377,7 @@ def check_all(ctx, cov, items, dev, kinds, budget=None, cap=250, timeout=1500):
                                              'MaxTail', 'Ops')}
         st['storages'] = [k for k in kinds if k != 'mapping' or not c['Blobs']]
         cov.graphs[name] = st
+    cov.timing['load_plan_replay_s'] = round(time.time() - t0, 1)
 
 
 def finish(ctx, cov, need, rule, dev):
@@ -384,6 +402,7 @@ def finish(ctx, cov, need, rule, dev):
         'graphs': cov.graphs,
         'tlc_counterexamples': cov.cex,
         'constants_matching_tree': dev,
+        'phase_wall_s': cov.timing,
         'violations_by_kind': cov.violations,
         'clauses_of_the_other_property_observed': cov.other_clauses,
         'samples': cov.samples or [v['trace'] for v in cov.cex.values()],
